@@ -72,7 +72,7 @@ func (m *Monitors) fail(prop string, format string, args ...interface{}) {
 			detail = "K5: " + detail
 		case m.k2 && (prop == "C10" || prop == "C11"):
 			detail = "K2: " + detail
-		case m.rel != nil && m.rel.k3any && (prop == "C01" || prop == "C16" || prop == "C12" || prop == "C11" || prop == "C13"):
+		case m.rel != nil && m.rel.k3any && (prop == "C01" || prop == "C16" || prop == "C12" || prop == "C11" || prop == "C13" || prop == "C19" || prop == "C20"):
 			// aggregate state predicates cannot name the context: once the module-service
 			// path (K3) ran in this history its unbacked earning / leftover records persist
 			detail = "K3: " + detail
